@@ -239,8 +239,15 @@ func worker(scenarios []Scenario, sh string, budget time.Duration) {
 			withCache := outcomes
 			outcomes = map[string]bool{}
 			bad := false
-			st2 := vrt.Explore(vrt.Options{MaxBound: bound, Cache: false, Delay: sc.Delay, MaxSteps: sc.MaxSteps, Stop: func() bool { return time.Now().After(scDeadline) }},
+			// the uncached exploration can be orders of magnitude larger: it is abandoned (and not
+			// counted as a self-test) beyond a fixed number of executions
+			n2, limit2 := 0, 120000
+			if budget > 5*time.Minute { // the thorough tier
+				limit2 = 2000000
+			}
+			st2 := vrt.Explore(vrt.Options{MaxBound: bound, Cache: false, Delay: sc.Delay, MaxSteps: sc.MaxSteps, Stop: func() bool { return n2 > limit2 || time.Now().After(scDeadline) }},
 				body, func(x *vrt.Exec) bool {
+					n2++
 					if f := judge(x); f != nil && !known[strings.ReplaceAll(f.Sig, " ", "_")] {
 						bad = true
 						return false
